@@ -1,0 +1,16 @@
+//go:build verif
+// +build verif
+
+package pdu
+
+import "reflect"
+
+// VerifTypes exposes the command_id registry to the verification harness
+// (read-only copy; build tag "verif" only).
+func VerifTypes() map[CommandID]reflect.Type {
+	out := make(map[CommandID]reflect.Type, len(types))
+	for id, t := range types {
+		out[id] = t
+	}
+	return out
+}
